@@ -13,7 +13,9 @@ import time
 from . import REPO_DIR, VERIF_DIR
 from .runner import Ob, run_all
 
-EVID_DIR = os.path.join(VERIF_DIR, "evidence")
+# VERIF_EVID_DIR: scratch evidence directory for runs against seeded scratch trees (tools/), so that
+# they never overwrite the committed evidence of the unchanged tree
+EVID_DIR = os.environ.get("VERIF_EVID_DIR") or os.path.join(VERIF_DIR, "evidence")
 REPLAY_DIR = os.path.join(EVID_DIR, "replays")
 KNOWN = os.path.join(VERIF_DIR, "known_findings.txt")
 
